@@ -22,7 +22,7 @@ claimed = {
  "C06": dict(design="5/C06", text="For each of the 25 tables the solver decides all 512 case spellings of the 64 codons against an independently written NCBI oracle (standard code + per-table reassignments); start/stop lists compared with NCBI's; concatenation at codon boundaries, partial-codon and case clauses for all strings up to length 7 (quick) / 10 (thorough).",
              note="The NCBI oracle in the harness was transcribed by hand from the NCBI genetic-code page. Map iteration order of the table generator: insertion order (quick), plus reversed (thorough)."),
  "C08": dict(design="5/C08", text="Counting: for every coding sequence over all ASCII bytes up to the stated length the solver decides that each of the 64 weights equals the number of in-frame case-insensitive occurrences and the assignment is untouched. History: every operation sequence (request default / re-weight default / add) up to the stated length over two table ids is executed on the real code with struct/slice aliasing modelled exactly, and every held table is compared with a value-semantics model after every step.",
-             note="Known finding C08-F1 (OptimizeTable writes through to the shared default table) is reported as KNOWN-FINDING; histories outside its region (no table id both re-weighted and requested twice) must hold. Concurrency / race detector not covered."),
+             note="Known finding C08-F1 (OptimizeTable writes through to the shared default table) is reported as KNOWN-FINDING; histories outside its region (no table id both re-weighted and requested twice) must hold. Serialise / parse operations go through the engine's JSON text layer. Concurrency / race detector not covered."),
  "C07": dict(design="5/C07", text="Round trip (3 bases per residue, translates back) for every protein of 1..2 letters over each table's letters and every value of every rand.Intn draw; unencodable residues (all ASCII bytes) give an error, never a panic; the 10% threshold and zero-weight exclusion decided for symbolic weights; every output of random.ProteinSequence (all rand draws) is optimisable.",
              note="math/rand.Intn is a stub returning an arbitrary value in range (panics for n<=0); chooser()'s float division/comparison is abstracted to real arithmetic in the threshold clause; the statistical proportionality clause is not covered. Replays of rand-dependent counterexamples are statistical (up to 3000 native tries)."),
  "C18": dict(design="5/C18", text="Add: 128 symbolic 64-bit weights over full 64-codon tables, every weight is the sum and code/starts/stops are the first table's. Compromise: for enumerated small weights and a symbolic real cut-off in [-1,2] the solver decides error iff cut-off outside [0,1], symmetry, zero-or-mean-of-shares within the +/-1-per-rounding tolerance, zero below / mean above the cut-off, code kept.",
@@ -38,9 +38,9 @@ claimed = {
  "C14": dict(design="5/C14", text="gff.Build then gff.Parse from SSA on structured sequences whose letters and field texts are symbolic: region name/bounds, the full sequence across the 70-column wrap (lengths around every wrap boundary; every length 1..212 in thorough), the nine columns, attributes and the 1-based/0-based coordinate conversion are preserved, and a parsed feature's GetSequence is bases start..end; no panic.",
              note="Preconditions as listed in the evidence (non-empty region name, RegionStart 1, RegionEnd = length, version set, >= 1 attribute). The independent-writer clause is covered only by the repository's excerpt as a translator-validation vector."),
  "C16": dict(design="5/C16", text="rebase.Parse from SSA on generated listings (prose line, supplier table indented with spaces or tabs, 0..2/3 records) whose field texts, enzyme names, supplier letters and supplier names are symbolic: one entry per record keyed by name, every field verbatim, isoschizomers split at commas, empty fields stay empty, each supplier letter decoded to the name given in the listing's own table. Export: the JSON export parses back to the same map under the json field/tag contract model.",
-             note="Enzyme names and supplier letters are assumed pairwise distinct. JSON text layer not modelled (see C15)."),
+             note="Enzyme names and supplier letters are assumed pairwise distinct. Export is checked both through the json contract model (wide symbolic fields) and through the engine's JSON text layer (few symbolic bytes, characters that need escaping)."),
  "C15": dict(design="5/C15", text="json.MarshalIndent -> polyjson.Parse on structured annotated sequences (symbolic strings, flags and bounds; references, Other map and attribute maps absent / empty / populated; nested location trees): every field except ParentSequence equal, every feature re-linked to a parent and reporting the same sequence as before; and for one GenBank and one GFF record with symbolic contents, writing the parsed input directly and writing it after a detour through JSON give byte-identical text.",
-             note="encoding/json is replaced by a contract model that reads the real struct types and tags of /repo's current source through go/types (exported fields, names, '-', omitempty, duplicate-name elimination, case-insensitive decode, nil<->null); JSON text syntax/escaping/non-ASCII and the Write/Read file path are outside the claim (seeded change C15-m2, which corrupts the JSON text in Write, is therefore not detected). Counterexamples are replayed natively against the real encoding/json."),
+             note="encoding/json is replaced by a contract model that reads the real struct types and tags of /repo's current source through go/types (exported fields, names, '-', omitempty, duplicate-name elimination, case-insensitive decode, nil<->null); A second harness uses the engine's JSON TEXT layer (encoder / parser after encoding/json's rules, validated byte for byte against the real package on the repository's sample.json) through polyjson.Write -> in-memory file -> polyjson.Read with text fields symbolic over the characters JSON escapes. Non-ASCII text and floats are outside the claim. Counterexamples are replayed natively against the real encoding/json."),
  "C13": dict(design="5/C13", text="fasta.Build / Parse / ParseConcurrent from SSA with record names and every sequence letter symbolic: Parse(Build(x)) = x, the parse result is unchanged by the harness's own re-wrapping (widths 1/3/60, blank lines, ';' comments, CRLF), sequences of 65536 letters (quick) and 65535/65536/65537/70000 (thorough) survive, and the streaming parser delivers the records in order and closes its channel exactly once for channel capacities 0/1/1000 over all explored schedules.",
              note="bufio.Scanner (incl. its token-size limit and Buffer()), bytes.Reader and bytes.Buffer are models; goroutines are scheduled at synchronisation points only (default schedule, its LIFO mirror and all schedules deviating at <= 2 (quick) / 3 (thorough) choice points); gzip, files and the race detector are outside the claim."),
  "C20": dict(design="5/C20", text="uniprot.Parse (the token loop) executed from SSA against every event script up to the stated length (entries, entries damaged inside, other elements/tokens, syntax errors), channel capacities 0/1/100, both documented consumer shapes and every explored schedule: entries before the damage are delivered once and in order, a damaged document reports at least one error, both channels are closed and the parser terminates (no deadlock, step budget as termination obligation).",
